@@ -4,7 +4,7 @@ from __future__ import annotations
 from ..gprog import prio_menu, res_menu, seq_menu, shapes
 from ..monitors import mon_c08
 from ..sched import replay_case, run_case
-from ..spaces import all_res, all_seq, desc_prio, shard_iter
+from ..spaces import all_res, all_seq, cflag_variants, desc_prio, shard_iter
 
 ID = "C08"
 BUDGET = {"quick": 100, "thorough": 1800}
@@ -29,6 +29,18 @@ def cases(tier: str):
                     for prio in (((0,) * n, desc_prio(n)) if q else prio_menu(n)):
                         for is_async in ((False,) if q else (False, True)):
                             yield dict(n=n, es=es, seq=seq, res=res, mc=mc, prio=prio, is_async=is_async, ties=0 if q else 2)
+    # deactivated (constant False flag) nodes, sequential or not, next to running nodes
+    for n in (2, 3, 4):
+        for es in shapes(n):
+            if n == 4 and len(es) > (2 if q else 6):
+                continue
+            for cf in cflag_variants(n)[1:n + 1]:
+                i = next(iter(cf))
+                for seq in ((False,) * n, tuple(j == i for j in range(n))):
+                    for res in ("t" * n, "a" * n, ("tm" * n)[:n]):
+                        for mc in (2, 3):
+                            for prio in ((0,) * n, tuple(5 if j == i else 0 for j in range(n))):
+                                yield dict(n=n, es=es, cflag=cf, seq=seq, res=res, mc=mc, prio=prio, is_async=False, ties=0 if q else 1)
     if not q:
         n = 5
         for es in shapes(n):
